@@ -58,14 +58,37 @@ func VH_C03_framing_many() {
 // VH_C03_restart: after any two acknowledged commands from the command table (on top of a fixed dataset with
 // points, strings, fields, a deadline, a JSON document and a channel), a restart on the log gives exactly the
 // live dataset. Real handleInputCommand / writeAOF / flushAOF, real openAppendFile / loadAOF / handlers.
-//verif:cfg use=dirmodel b_program=2_commands_from_the_gate_table_on_the_full_dataset|1_command_on_a_server_with_hooks_and_channels_only|1_command_on_an_empty_server ignorego=1 maxsteps=40000000
+//verif:cfg use=dirmodel b_program=2_commands_from_the_gate_table_on_the_full_dataset|1_command_on_a_server_with_hooks_and_channels_only|1_command_on_an_empty_server|1..2_of_10_field_writes_on_an_object_whose_fields_hold_0.0,_1.5,_a_JSON_document_and_a_string ignorego=1 maxsteps=40000000
 func VH_C03_restart() {
 	s, _ := vhShrinkServer()
 	s.luascripts = s.newScriptMap() // the table contains script commands
 	s.luapool = s.newPool()
 	table := vhCommandTable()
 	var c1, c2 vhCmd
-	switch vchoose(3) {
+	switch vchoose(4) {
+	case 3:
+		// field values written in more than one way: what the reply calls "no change" must not change anything,
+		// and what changes must be in the log
+		vhWriteCmd(s, "SET", "fleet", "truck5", "FIELD", "speed", "0.0", "FIELD", "rate", "1.5", "FIELD", "info", `{"a":1}`, "FIELD", "name", "Joe", "POINT", "1", "1")
+		fsets := [][]string{
+			{"FSET", "fleet", "truck5", "speed", "0"},
+			{"FSET", "fleet", "truck5", "speed", "-0"},
+			{"FSET", "fleet", "truck5", "speed", "5"},
+			{"FSET", "fleet", "truck5", "rate", "1.50"},
+			{"FSET", "fleet", "truck5", "rate", "0"},
+			{"FSET", "fleet", "truck5", "info.a", "1"},
+			{"FSET", "fleet", "truck5", "info", `{"a":2}`},
+			{"FSET", "fleet", "truck5", "name", "joe"},
+			{"FSET", "fleet", "truck5", "name", "0", "speed", "0.0"},
+			{"SET", "fleet", "truck5", "FIELD", "speed", "0", "POINT", "1", "1"},
+		}
+		c1 = vhCmd{args: fsets[vchoose(len(fsets))]}
+		vhRunCmd(s, c1.args)
+		if vnondetBool() {
+			c2 = vhCmd{args: fsets[vchoose(len(fsets))]}
+			vhRunCmd(s, c2.args)
+		}
+		vreach("field-values")
 	case 0:
 		vhWriteCmd(s, "SET", "fleet", "truck1", "FIELD", "speed", "90", "POINT", "33", "-115")
 		vhWriteCmd(s, "SET", "fleet", "truck2", "STRING", "hello")
